@@ -457,6 +457,13 @@ func c19sCAMatrix(t *testing.T, res *verifResult, offered []c19Key) (cases, idx 
 	configs = append(configs, config{main: caFile{4, 0}}, config{main: caFile{4, 2}, ed: &caFile{4, 0}},
 		config{main: caFile{0, 0}, ed: &caFile{0, 0}}, config{main: caFile{1, 1}, ed: &caFile{1, 2}}, config{main: caFile{0, 2}, ed: &caFile{3, 1}})
 	name := func(f caFile) string { return algNames[f.alg] + "-" + fmtNames[f.format] }
+	// refusals per (client key type, path): reported per CA file when they depend on it, once when they do not
+	type refusal struct {
+		ca  string
+		hit verifHit
+	}
+	refusals := map[string][]refusal{}
+	asked := map[string]int{}
 	for _, cf := range configs {
 		mainFile, err := c19sKeyFile(caKeys[cf.main.alg], cf.main.format)
 		if err != nil {
@@ -515,19 +522,25 @@ func c19sCAMatrix(t *testing.T, res *verifResult, offered []c19Key) (cases, idx 
 				signing = *cf.ed
 			}
 			kcs := map[string]interface{}{"main_ca": name(cf.main), "ed25519_ca": edName, "sealed": cf.sealed, "client_key_type": typeNames[k.typ], "key": strings.TrimSpace(line), "status": rr.Code}
+			if k.typ != 3 || cf.ed != nil {
+				asked[typeNames[k.typ]+":ssh"]++
+			}
 			if answer == 2 || (answer == 1 && cf.ed != nil) {
-				res.hit(verifHit{Key: fmt.Sprintf("C19:offered-refused:%s:ca-%s", typeNames[k.typ], name(signing)), Oracle: "a key of a type the client offers is certified by the server, whatever format its CA key files are in", Kind: "input",
-					What: fmt.Sprintf("%s key sent as the client serialises it to certgen type=ssh of a daemon with %s: %d %s", typeNames[k.typ], desc, rr.Code, strings.TrimSpace(rr.Body.String())), Case: kcs, Observed: rr.Code})
+				refusals[typeNames[k.typ]+":ssh"] = append(refusals[typeNames[k.typ]+":ssh"], refusal{"ca-" + name(signing), verifHit{Key: fmt.Sprintf("C19:offered-refused:%s:ca-%s", typeNames[k.typ], name(signing)), Oracle: "a key of a type the client offers is certified by the server, whatever format its CA key files are in", Kind: "input",
+					What: fmt.Sprintf("%s key sent as the client serialises it to certgen type=ssh of a daemon with %s: %d %s", typeNames[k.typ], desc, rr.Code, strings.TrimSpace(rr.Body.String())), Case: kcs, Observed: rr.Code}})
 			}
 			// type=x509 (the client asks X.509 certificates for its main key only)
 			reqX := verifCertgenRequest("POST", "alice", "x509", pemKey, nil, nil)
 			reqX.AddCookie(cookie)
 			rrX, _ := env.serve(reqX)
 			x509ok := rrX.Code == 200 && verifParseCertBody(rrX.Body.Bytes()) != nil
+			if k.typ != 3 {
+				asked[typeNames[k.typ]+":x509"]++
+			}
 			if k.typ != 3 && !x509ok {
-				kcs["status"] = rrX.Code
-				res.hit(verifHit{Key: fmt.Sprintf("C19:offered-refused:%s:x509-ca-%s", typeNames[k.typ], name(cf.main)), Oracle: "a key of a type the client offers is certified by the server, whatever format its CA key files are in", Kind: "input",
-					What: fmt.Sprintf("%s key sent as the client serialises it to certgen type=x509 of a daemon with %s: %d %s", typeNames[k.typ], desc, rrX.Code, strings.TrimSpace(rrX.Body.String())), Case: kcs, Observed: rrX.Code})
+				kcs = map[string]interface{}{"main_ca": name(cf.main), "ed25519_ca": edName, "sealed": cf.sealed, "client_key_type": typeNames[k.typ], "key": strings.TrimSpace(pemKey), "status": rrX.Code}
+				refusals[typeNames[k.typ]+":x509"] = append(refusals[typeNames[k.typ]+":x509"], refusal{"x509-ca-" + name(cf.main), verifHit{Key: fmt.Sprintf("C19:offered-refused:%s:x509-ca-%s", typeNames[k.typ], name(cf.main)), Oracle: "a key of a type the client offers is certified by the server, whatever format its CA key files are in", Kind: "input",
+					What: fmt.Sprintf("%s key sent as the client serialises it to certgen type=x509 of a daemon with %s: %d %s", typeNames[k.typ], desc, rrX.Code, strings.TrimSpace(rrX.Body.String())), Case: kcs, Observed: rrX.Code}})
 			}
 			verdicts = append(verdicts, fmt.Sprintf("(%d%%N, %d%%N, %s)", k.typ, answer, coqBool(x509ok)))
 			vdesc = append(vdesc, fmt.Sprintf("%s:ssh=%d/x509=%d", typeNames[k.typ], rr.Code, rrX.Code))
@@ -536,6 +549,27 @@ func c19sCAMatrix(t *testing.T, res *verifResult, offered []c19Key) (cases, idx 
 		}
 		cases = append(cases, fmt.Sprintf(" (%d%%N, %d%%N, %s, true, [%s])", cf.main.alg, cf.main.format, edCoq, strings.Join(verdicts, "; ")))
 		idx = append(idx, fmt.Sprintf("%d\t%s -> %s", len(idx), desc, strings.Join(vdesc, " ")))
+	}
+	for _, tp := range []string{"rsa:ssh", "rsa:x509", "p256:ssh", "p256:x509", "p384:ssh", "p384:x509", "ed25519:ssh"} {
+		rs := refusals[tp]
+		if len(rs) == 0 {
+			continue
+		}
+		if len(rs) == asked[tp] {
+			// refused whatever the CA key material is: one hit, the first configuration as the input
+			h := rs[0].hit
+			h.Key = "C19:offered-refused:" + strings.Replace(tp, ":", ":ca-any-", 1)
+			h.What += fmt.Sprintf(" (and with every other of the %d CA key configurations)", asked[tp])
+			res.hit(h)
+			continue
+		}
+		seen := map[string]bool{}
+		for _, r := range rs {
+			if !seen[r.ca] {
+				seen[r.ca] = true
+				res.hit(r.hit)
+			}
+		}
 	}
 	return cases, idx
 }
